@@ -454,6 +454,7 @@ type Replay struct {
 	E2E    *E2ECase    `json:"e2e,omitempty"`
 
 	TrimRace *TrimRaceCase `json:"trimrace,omitempty"`
+	Writers  *WritersCase  `json:"writers,omitempty"`
 }
 
 func (r Replay) bytes() []byte {
@@ -487,6 +488,12 @@ func replayOne(r Replay) (string, string) {
 		return res.msg, res.infra
 	case "seq":
 		res := evalSeq(*r.Seq)
+		return res.msg, res.infra
+	case "writers":
+		if !straceUsable() {
+			return "", ""
+		}
+		res := evalWriters(*r.Writers)
 		return res.msg, res.infra
 	case "trimrace":
 		if !straceUsable() {
